@@ -69,7 +69,7 @@ fn subprocess_result(mut args: Args) -> Result<i32> {
 fn inform_parent_done(fds: &[c_int]) {
     unsafe {
         libc::close(fds[0]);
-        let stream = libc::fdopen(fds[1], "w".as_ptr() as *const c_char);
+        let stream = libc::fdopen(fds[1], c"w".as_ptr() as *const c_char);
         let bytes: [u8; 1] = *b"X";
         libc::fwrite(bytes.as_ptr() as *const c_void, 1, 1, stream);
         libc::fclose(stream);
@@ -86,7 +86,7 @@ fn wait_for_child_done(fds: &[c_int], child_pid: pid_t) -> i32 {
         // close our sending end of the pipe
         libc::close(fds[1]);
         // open the other end of the pipe for reading
-        let stream = libc::fdopen(fds[0], "r".as_ptr() as *const c_char);
+        let stream = libc::fdopen(fds[0], c"r".as_ptr() as *const c_char);
 
         // Wait for child to send a byte via the pipe or for the pipe to be closed.
         let mut response: [u8; 1] = [0u8; 1];
@@ -100,7 +100,15 @@ fn wait_for_child_done(fds: &[c_int], child_pid: pid_t) -> i32 {
                 // Child closed pipe without sending a byte - get the process exit_status
                 let mut status: libc::c_int = -1i32;
                 libc::waitpid(child_pid, &mut status, 0);
-                libc::WEXITSTATUS(status)
+                if libc::WIFEXITED(status) {
+                    libc::WEXITSTATUS(status)
+                } else if libc::WIFSIGNALED(status) {
+                    // The child was killed by a signal. Follow the shell convention so that we
+                    // never report success for a link that didn't complete.
+                    128 + libc::WTERMSIG(status)
+                } else {
+                    1
+                }
             }
         }
     }
